@@ -2,6 +2,9 @@ module annverif
 
 go 1.12
 
-require github.com/dappledger/AnnChain v0.0.0
+require (
+	github.com/dappledger/AnnChain v0.0.0
+	github.com/spf13/viper v0.0.0-20171207042631-1a0c4a370c3e
+)
 
 replace github.com/dappledger/AnnChain => /repo
